@@ -76,8 +76,16 @@ pub fn compare(x: &ExpectedTx, t: &DTx, check_redeemers: bool) -> Vec<Diff> {
                     false,
                 )),
             }
-            if to.datum_hash.is_some() || to.script_ref.is_some() {
-                out.push(d(format!("outputs[{i}].extra"), "no datum hash / script ref", "present", false));
+            if to.datum_hash.is_some() {
+                out.push(d(format!("outputs[{i}].extra"), "no datum hash", "present", false));
+            }
+            if to.script_ref != xo.script_ref {
+                out.push(d(
+                    format!("outputs[{i}].script_ref"),
+                    xo.script_ref.as_ref().map(hex::encode),
+                    to.script_ref.as_ref().map(hex::encode),
+                    false,
+                ));
             }
         }
     }
